@@ -181,7 +181,10 @@ def run(prop, tier):
     cm = vlib.run_tlc("MC_Conn", "MC_ConnQuickLogin.cfg", wd, workers=4, timeout=900)
     if not cm.ok:
         raise vlib.ToolError("TLC reports %s on MC_ConnQuickLogin.cfg:\n%s" % (cm.violated, cm.output[-2000:]))
-    behs = [b for b in cm.marked["REPLAY"] if any(ev["e"] == "call" and ev["c"]["a"] == "auth" for r in b["hist"] for ev in r["obs"])]
+    # every behaviour in which the client answers the Encryption Request (whatever it answers: the service may only ever be asked with
+    # this connection's secret and key)
+    behs = [b for b in cm.marked["REPLAY"] if any((ev["e"] == "call" and ev["c"]["a"] == "auth") or (ev["e"] == "rx" and ev["f"].get("k") == "EncryptionResponse")
+                                                  for r in b["hist"] for ev in r["obs"])]
     cinp, coutp = os.path.join(wd, "conn_in.ndjson"), os.path.join(wd, "conn_obs.ndjson")
     vlib.write_ndjson(cinp, behs)
     vlib.run_bin(hxc, ["conn", "--in", cinp, "--out", coutp, "--seed", str(seed), "--threads", "12"], timeout=1800)
